@@ -34,25 +34,28 @@ Theorem C13_no_secrets_apis_fail_on_secret_material :
 Proof. exact no_secrets_api_fails_on_secret. Qed.
 Print Assumptions C13_no_secrets_apis_fail_on_secret_material.
 
-(* ... and on public/remote-only keysets they are the cleartext construction
-   (they succeed exactly when the keyset is otherwise acceptable, C14). *)
-Theorem C13_no_secrets_apis_succeed_on_public_keysets :
+(* ... and on keysets labelled public/remote only they are the cleartext
+   construction followed by the same test on what the parsed key objects
+   serialise to (/repo b141c20: the label alone is not trusted). *)
+Theorem C13_no_secrets_apis_on_public_labels :
   forall (L : stdlib) ks,
     Forall (fun k => public_or_remote (key_material k)) (ks_keys ks) ->
-    handle_no_secrets L (Some ks) = handle_from_proto L (Some ks)
+    handle_no_secrets L (Some ks) = bind (handle_from_proto L (Some ks)) (fun h => if handle_has_secrets h then Err else Ok h)
     /\ forall b, decode_keyset b = Some ks ->
-         read_no_secrets L b = read L b.
-Proof. exact no_secrets_api_succeeds_on_public. Qed.
-Print Assumptions C13_no_secrets_apis_succeed_on_public_keysets.
+         read_no_secrets L b = bind (read L b) (fun h => if handle_has_secrets h then Err else Ok h).
+Proof. exact no_secrets_api_on_public_labels. Qed.
+Print Assumptions C13_no_secrets_apis_on_public_labels.
 
-(* ... concluding with the handle: on a public/remote-only keyset the three
-   entry points return exactly the handle of the cleartext construction, and a
-   no-secrets API returns a handle iff the cleartext construction does and
-   every key is labelled public or remote. *)
+(* ... concluding with the handle: when labels and key objects are public or
+   remote only, the three entry points return exactly the handle of the
+   cleartext construction; and a no-secrets API returns a handle iff the
+   cleartext construction does, every label is public/remote and every key
+   object serialises to public/remote material. *)
 Theorem C13_no_secrets_apis_return_the_handle :
   forall (L : stdlib) ks h,
     handle_from_proto L (Some ks) = Ok h ->
     Forall (fun k => public_or_remote (key_material k)) (ks_keys ks) ->
+    Forall (fun e => public_or_remote (out_material e)) h ->
     handle_no_secrets L (Some ks) = Ok h
     /\ forall b, decode_keyset b = Some ks -> read_no_secrets L b = Ok h /\ read L b = Ok h.
 Proof. exact no_secrets_apis_return_the_handle. Qed.
@@ -61,7 +64,8 @@ Print Assumptions C13_no_secrets_apis_return_the_handle.
 Theorem C13_no_secrets_handle_ok_iff :
   forall (L : stdlib) ks h,
     handle_no_secrets L (Some ks) = Ok h <->
-    (handle_from_proto L (Some ks) = Ok h /\ Forall (fun k => public_or_remote (key_material k)) (ks_keys ks)).
+    (handle_from_proto L (Some ks) = Ok h /\ Forall (fun k => public_or_remote (key_material k)) (ks_keys ks)
+     /\ Forall (fun e => public_or_remote (out_material e)) h).
 Proof. exact no_secrets_ok_iff. Qed.
 Print Assumptions C13_no_secrets_handle_ok_iff.
 
@@ -69,7 +73,8 @@ Theorem C13_read_no_secrets_ok_iff :
   forall (L : stdlib) b h,
     read_no_secrets L b = Ok h <->
     exists ks, decode_keyset b = Some ks /\ handle_from_proto L (Some ks) = Ok h
-               /\ Forall (fun k => public_or_remote (key_material k)) (ks_keys ks).
+               /\ Forall (fun k => public_or_remote (key_material k)) (ks_keys ks)
+               /\ Forall (fun e => public_or_remote (out_material e)) h.
 Proof. exact read_no_secrets_ok_iff. Qed.
 Print Assumptions C13_read_no_secrets_ok_iff.
 
@@ -122,34 +127,48 @@ Theorem C13_accepted_label_is_material :
 Proof. exact accepted_label_is_material. Qed.
 Print Assumptions C13_accepted_label_is_material.
 
-(* Hence on keysets of those types the no-secrets import and export agree, and
-   both fail exactly when some key holds symmetric or private material BY ITS
-   TYPE - for private keys of every modelled kind (ECDSA, Ed25519, RSA, ECIES,
-   HPKE, JWT ECDSA/RSA, SLH-DSA) at any position. *)
-Theorem C13_no_secrets_import_and_export_agree :
+(* THE import theorem, for all 37 transcribed key types and the fallback key
+   (this clause was REFUTED before /repo b141c20: the five parsers that ignore
+   the label - HMAC, AES-CMAC, HKDF/HMAC/AES-CMAC PRF - let symmetric keys
+   labelled ASYMMETRIC_PUBLIC or REMOTE through the no-secrets import): on a
+   keyset the cleartext construction accepts as h, NewHandleWithNoSecrets
+   returns h iff every key object serialises to public or remote material, iff
+   WriteWithNoSecrets writes h; it is an error exactly when some key holds
+   symmetric or private material BY ITS TYPE (or an unregistered type carries
+   such a label), whatever the labels say and at any position. *)
+Theorem C13_no_secrets_import_iff_export :
   forall (L : stdlib) ks h,
     handle_from_proto L (Some ks) = Ok h ->
-    Forall (fun e => label_checked (url_tag (eurl e)) = true) h ->
-    (handle_no_secrets L (Some ks) = Ok h <-> exists b, write_no_secrets h = Ok b)
+    (handle_no_secrets L (Some ks) = Ok h <-> Forall (fun e => public_or_remote (out_material e)) h)
+    /\ (handle_no_secrets L (Some ks) = Ok h <-> exists b, write_no_secrets h = Ok b)
     /\ (handle_no_secrets L (Some ks) = Err <-> Exists (fun e => ~ public_or_remote (url_material (eurl e) (emat e))) h).
-Proof. exact no_secrets_import_export_agree. Qed.
-Print Assumptions C13_no_secrets_import_and_export_agree.
+Proof. exact no_secrets_import_iff_export. Qed.
+Print Assumptions C13_no_secrets_import_iff_export.
 
-(* REFUTED for the other five: "NewHandleWithNoSecrets / ReadWithNoSecrets fail
-   for every keyset containing symmetric key material" is false when the
-   material is mislabelled: an HmacKey labelled ASYMMETRIC_PUBLIC is imported
-   (the parser never looks at the label), the key object holds symmetric
-   material, and WriteWithNoSecrets refuses to write the handle back.  The
-   witness is confirmed on the implementation by the differential run
-   (generator scenario "mislabel"; corpus line in corpus/C13.txt). *)
-Theorem C13_no_secrets_import_trusts_the_label_refuted :
-  exists ks h e,
-    handle_no_secrets refuting_std (Some ks) = Ok h
-    /\ read_no_secrets refuting_std (ser_keyset ks) = Ok h
-    /\ In e h /\ out_material e = km_symmetric /\ url_material (eurl e) (emat e) = km_symmetric
+(* Every handle a no-secrets reader returns can be written by
+   WriteWithNoSecrets and holds no key whose serializer writes SYMMETRIC or
+   ASYMMETRIC_PRIVATE (or any other non public/remote) material. *)
+Theorem C13_no_secrets_handle_is_exportable :
+  forall (L : stdlib) ks h,
+    handle_no_secrets L ks = Ok h ->
+    (exists b, write_no_secrets h = Ok b) /\ Forall (fun e => public_or_remote (out_material e)) h.
+Proof. exact no_secrets_handle_is_exportable. Qed.
+Print Assumptions C13_no_secrets_handle_is_exportable.
+
+(* The witness of the former finding, now on the right side: an HmacKey
+   labelled ASYMMETRIC_PUBLIC passes the label test and the cleartext reader,
+   its key object holds symmetric material, and import and export both refuse
+   it (corpus/C13.txt line corpus-mislabelled-hmac-public: n:err rn:err rj:err). *)
+Theorem C13_mislabelled_symmetric_key_rejected_at_import :
+  exists h e,
+    handle_from_proto refuting_std (Some mislabelled_hmac_keyset) = Ok h
+    /\ has_secrets mislabelled_hmac_keyset = false
+    /\ In e h /\ out_material e = km_symmetric
+    /\ handle_no_secrets refuting_std (Some mislabelled_hmac_keyset) = Err
+    /\ read_no_secrets refuting_std (ser_keyset mislabelled_hmac_keyset) = Err
     /\ write_no_secrets h = Err.
-Proof. exact no_secrets_import_trusts_the_label_refuted. Qed.
-Print Assumptions C13_no_secrets_import_trusts_the_label_refuted.
+Proof. exact mislabelled_symmetric_key_rejected_at_import. Qed.
+Print Assumptions C13_mislabelled_symmetric_key_rejected_at_import.
 
 (* Non-interference: KeysetInfo() - and String(), its text form, whatever the
    text encoder - depend only on (type url, status, id, prefix type, primary):
